@@ -471,6 +471,14 @@ pub fn run(opts: &Options) -> Report {
                                 );
                             }
                         }
+                        if ds.is_empty() {
+                            // (independent of the implementation's own count)
+                            rep.violate(
+                                "C15|no-sample|more-than-last-n-missing",
+                                "more than last-N blocks are missing, only the last N are requested and none of the others is sampled",
+                                replay.clone(),
+                            );
+                        }
                         if ds.len() as u64 > count || (count > 0 && ds.is_empty()) {
                             rep.violate(
                                 "C15|sample-count-structure",
